@@ -25,6 +25,13 @@ CHECKS = {
              'complete parsed contents (every container, every field, order) are compared with a reference derived from '
              'the generating model; exploration, not proof - strength is the number and diversity of documents.',
         note=TRUST_PY, design='C05'),
+    'C06': dict(
+        technique='generated-input search (Hypothesis: model x configuration x inclusion order) with the C++ compiler and linker as oracle (g++ 12, clang++ 14, mock Dezyne runtime)',
+        text='Every generated file set is compiled: each header stand-alone with two compilers, a multi-inclusion / '
+             'diamond translation unit, quoted-include closure, a separate translation unit that constructs, binds, '
+             'final-constructs and touches every public member of the shell, linked and run, and a cross-prefix program '
+             'with two shells; exploration over sampled models and configurations.',
+        note=TRUST_CXX, design='C06'),
     'C07': dict(
         technique=PBT + 'an independent reference lookup (scope chain uniqueness) whose result is compared with the types extracted from the generated text; metamorphic relation (unrelated same-named declarations); reference faults must be refused',
         text='Generated-input search over collision-heavy models and every spelling of a reference; the declaration the '
